@@ -388,6 +388,7 @@ class RefPairSetup:
         self.ident = ident
         self.srp = SrpExchange(code, salt, b)
         self.m3_ok = False
+        self.m3_seen = False
         self.m5_ok = False
         self.m5_error = None
         self.controller_id = None
@@ -397,6 +398,7 @@ class RefPairSetup:
         return [(T_STATE, b"\x02"), (T_PK, PAD(self.srp.B)), (T_SALT, self.srp.salt)]
 
     def handle_m3(self, items):
+        self.m3_seen = True
         d = dict(items)
         A = int.from_bytes(bytes(d.get(T_PK, b"")), "big")
         if d.get(T_STATE) != b"\x03" or A % SRP_N == 0 or len(d.get(T_PK, b"")) != 384:
